@@ -43,6 +43,16 @@ def tested(fn, call, bad_value):
     return False
 
 
+def _tested(fn, is_subject):
+    """the subject is compared with a constant somewhere (if or switch)"""
+    for (s0, d0, c, pol) in fn.cfg.cond_edges():
+        j = fn.strip(c)
+        nd = fn.nodes[j]
+        if nd["k"] == "Bin" and nd["op"] in ("==", "!=") and any(is_subject(fn, x) for x in nd["ch"]):
+            return True
+    return any(c is not None and c >= 0 and is_subject(fn, c) for (s0, d0, c, v_) in fn.cfg.switch_edges())
+
+
 def run(ctx):
     P = ctx.P
     fns = {f.name: f for f in P.functions(U) if f.file.endswith(U)}
@@ -80,6 +90,8 @@ def run(ctx):
                 return pol
             return False
         edges = paths.guard_edges(f, fail_edge)
+        # `switch (result) { case -1: ...` reads the same
+        edges = list(edges) + [e_ for e_ in paths.equals_edges(f, lambda fn, n_, c=c: ("%s(" % fn.nodes[c]["callee"]) in fn.canon(n_, calls=True), -1) if e_ not in edges]
         ok = len(edges) >= 1
         why = "the result of %s() is not compared with -1" % cal
         if ok:
@@ -283,6 +295,14 @@ def run(ctx):
     jl = eu.calls("jsgf_add_link")
     ok = len(jl) == 1 and [eu.canon(x, subst=False) for x in eu.args(jl[0])] == ["grammar", "0", "lastnode", "rule->exit"]
     if ok:
+        # reachable neither when the alternative failed (-1) nor when it ended in recursion (-2): by value,
+        # whether the code says if / else-if or switch
+        isl = lambda fn, n_: fn.canon(n_, subst=False) == "lastnode"
+        jb_ = paths.pos_of(eu, jl[0])[0]
+        ok2 = all(jb_ not in eu.cfg.reachable_blocks(removed_edges=paths.edges_excluded_when(eu, isl, v_)) or not _tested(eu, isl) for v_ in (-1, -2)) and _tested(eu, isl)
+    if ok and ok2:
+        pass
+    elif ok:
         ok = paths.guarded(eu, jl[0], lambda fn, cc, pol: paths.rel(fn, cc, pol, subst=False) in (("-2", "!=", "lastnode"), ("lastnode", "!=", "-2"))) and paths.guarded(eu, jl[0], lambda fn, cc, pol: paths.rel(fn, cc, pol, subst=False) in (("-1", "!=", "lastnode"), ("lastnode", "!=", "-1")))
     ctx.check(j5, ok, key(eu, "join"), eu.where(eu.root), "an alternative is not joined to the rule's exit exactly when it neither failed nor ended in recursion")
     rv = [eu.canon(eu.ch(r)[0], subst=False) for r in eu.find("Return")]
